@@ -291,6 +291,28 @@ Section Column.
     bind (mapM (remove_one trows' existing (map Z.of_nat removed)) (wd_cols wd))
          (fun cols => Ok {| wd_rows := trows'; wd_cols := cols |}).
 
+  (* ---- ReplaceTableData on table T (doBulkAddOrReplace(replace=True) -> docactions.ReplaceTableData ->
+     Engine.load_table): every column of T is cleared and filled with the given values for the new row ids
+     (vals: one value list per own column, in order).  Nothing is done about the columns that target T. *)
+  Definition load_column (c : refcol) (rows : list nat) (vals : list cell) : res refcol :=
+    fold_left (fun acc rv => bind acc (fun c' => col_set c' (fst rv) (snd rv))) (combine rows vals)
+              (Ok (col_clear c)).
+
+  Fixpoint replace_cols (cols : list wcol) (rows : list nat) (vals : list (list cell)) : res (list wcol) :=
+    match cols with
+    | [] => Ok []
+    | w :: cols' =>
+        if w_own w then
+          let v := match vals with v :: _ => v | [] => [] end in
+          bind (load_column (w_col w) rows v)
+               (fun c => bind (replace_cols cols' rows (tl vals))
+                              (fun rest => Ok ({| w_col := c; w_rows := rows; w_own := true; w_back := w_back w |} :: rest)))
+        else bind (replace_cols cols' rows vals) (fun rest => Ok (w :: rest))
+    end.
+
+  Definition replace_table_data (wd : world) (rows : list nat) (vals : list (list cell)) : res world :=
+    bind (replace_cols (wd_cols wd) rows vals) (fun cols => Ok {| wd_rows := rows; wd_cols := cols |}).
+
 End Column.
 
 (* what the cleanup must produce for a cell: the removed targets filtered out, in order; an emptied list
